@@ -104,6 +104,8 @@ def run_group(args) -> List[Dict[str, Any]]:
             if run == 1:
                 # the second run builds every closure of the group into ONE directory that already holds the previous closure's outputs
                 spec["shared_out"] = os.path.join(base, "run1", "shared_out")
+                # ... and on another day, at another time of day
+                spec["clock_shift_days"] = 3
             else:
                 # the first run asks for one output per invocation (six compilations of the closure), the second for all at once:
                 # what one back end does to the shared parser must not show in another's output
